@@ -85,6 +85,10 @@ pub fn payload(stream: usize, response: bool, len: usize) -> Vec<u8> {
     (0..len).map(|i| ((i as u32).wrapping_mul(167).wrapping_add(tag) ^ (i as u32 >> 8) ^ (tag >> 8)) as u8).collect()
 }
 
+fn one_looping_reader() -> [Vec<u8>; 2] {
+    [vec![0], vec![0]]
+}
+
 pub fn dgram_len(raw: u16) -> usize {
     mono_range(raw, 4, 1100)
 }
@@ -181,6 +185,14 @@ pub struct QCase {
     pub streams: Vec<StreamSpec>,
     /// datagram sizes (raw) sent by [client, server]
     pub dgrams: [Vec<u16>; 2],
+    /// `recv_datagram()` readers per side, each its own actor (its own waker); the value is the number of
+    /// datagrams the reader takes before it ends, 0 = it keeps reading until the close
+    #[serde(default = "one_looping_reader")]
+    pub dgram_readers: [Vec<u8>; 2],
+    /// datagrams are sent in groups of that many with non-waiting `send_datagram`, back to back (small, so
+    /// that a group shares a packet); 0/1 = one at a time with `send_datagram_wait` and a short sleep between
+    #[serde(default)]
+    pub dgram_burst: [u8; 2],
     pub probes: [Vec<Probe>; 2],
     pub close: ClosePoint,
 }
@@ -224,15 +236,21 @@ fn probe() -> impl Strategy<Value = Probe> + Clone {
         2 => any::<bool>().prop_map(|bidi| Probe::OpenWaitAtLimit { bidi }),
         2 => any::<bool>().prop_map(|bidi| Probe::IdleStream { bidi }),
         2 => Just(Probe::BlockedWrite),
-        // Probe::Closed (a second concurrent closed()) is a known finding: regression case only
+        // a second concurrent closed(): fixed by 53c1adf (was C16/closed/second-concurrent-call-panics)
+        1 => Just(Probe::Closed),
     ]
 }
 
 pub fn strategy() -> impl Strategy<Value = QCase> + Clone {
     let when = prop_oneof![1 => Just(When::Before), 2 => (1u8..=255).prop_map(When::During), 3 => Just(When::After)];
     let close = (when, prop_oneof![Just(What::Connection), Just(What::Endpoint)], any::<bool>()).prop_map(|(when, what, by_client)| ClosePoint { when, what, by_client });
-    (any::<bool>(), tcfg(), tcfg(), vec(stream(), 0..6), vec(any::<u16>(), 0..7), vec(any::<u16>(), 0..7), vec(probe(), 0..4), vec(probe(), 0..4), close)
-        .prop_map(|(iour, a, b, streams, d0, d1, p0, p1, close)| bound(QCase { iour, cfg: [a, b], streams, dgrams: [d0, d1], probes: [p0, p1], close }))
+    let readers = || vec(prop_oneof![2 => Just(0u8), 4 => Just(1u8), 1 => 2u8..4], 1..=5);
+    let burst = || prop_oneof![2 => Just(1u8), 3 => 2u8..=5];
+    let dg = (vec(any::<u16>(), 0..10), vec(any::<u16>(), 0..10), readers(), readers(), burst(), burst());
+    (any::<bool>(), tcfg(), tcfg(), vec(stream(), 0..6), dg, vec(probe(), 0..4), vec(probe(), 0..4), close)
+        .prop_map(|(iour, a, b, streams, (d0, d1, r0, r1, b0, b1), p0, p1, close)| {
+            bound(QCase { iour, cfg: [a, b], streams, dgrams: [d0, d1], dgram_readers: [r0, r1], dgram_burst: [b0, b1], probes: [p0, p1], close })
+        })
         .sboxed()
 }
 
@@ -284,6 +302,8 @@ pub fn regressions() -> Vec<(&'static str, QCase)> {
                 cfg: [t(Win::Default, Win::Default, 2), t(Win::Default, Win::Default, 2)],
                 streams: vec![st(true, false, 9000, 0)],
                 dgrams: [vec![], vec![]],
+                dgram_readers: one_looping_reader(),
+                dgram_burst: [0, 0],
                 probes: [vec![Probe::Closed], vec![]],
                 close: ClosePoint { when: When::After, what: What::Connection, by_client: true },
             },
@@ -296,6 +316,8 @@ pub fn regressions() -> Vec<(&'static str, QCase)> {
                 cfg: [t(Win::Tiny(1400), Win::Tiny(1400), 1), t(Win::Tiny(1400), Win::Small(0), 1)],
                 streams: vec![st(true, true, 30000, 26000), st(true, false, 26000, 0), st(false, true, 20000, 60000), st(false, false, 40000, 0)],
                 dgrams: [vec![0, 30000, 65535], vec![100, 200]],
+                dgram_readers: [vec![1, 1, 0], vec![1, 1, 1]],
+                dgram_burst: [2, 3],
                 probes: [all_probes.clone(), all_probes.clone()],
                 close: ClosePoint { when: When::After, what: What::Connection, by_client: true },
             },
@@ -307,8 +329,24 @@ pub fn regressions() -> Vec<(&'static str, QCase)> {
                 cfg: [t(Win::Small(0), Win::Small(0), 2), t(Win::Small(0), Win::Tiny(30000), 2)],
                 streams: vec![st(true, true, 60000, 60000), st(false, false, 62000, 0), st(true, false, 50000, 0)],
                 dgrams: [vec![5, 6, 7], vec![]],
+                dgram_readers: [vec![0], vec![1, 2, 1]],
+                dgram_burst: [3, 0],
                 probes: [all_probes.clone(), all_probes],
                 close: ClosePoint { when: When::During(100), what: What::Endpoint, by_client: false },
+            },
+        ),
+        (
+            // five one-shot readers (five wakers) on each side, five small datagrams sent back to back
+            "one-shot-datagram-readers-and-a-burst",
+            QCase {
+                iour: false,
+                cfg: [t(Win::Default, Win::Default, 2), t(Win::Default, Win::Default, 2)],
+                streams: vec![],
+                dgrams: [vec![10, 20, 30, 40, 50], vec![60, 70, 80, 90, 100]],
+                dgram_readers: [vec![1, 1, 1, 1, 1], vec![1, 1, 1, 1, 1]],
+                dgram_burst: [5, 5],
+                probes: [vec![], vec![]],
+                close: ClosePoint { when: When::After, what: What::Connection, by_client: false },
             },
         ),
         (
